@@ -1398,6 +1398,18 @@ fn stream_serde(thorough: bool, seed: u64, out: &mut dyn Write) {
     ] {
         writeln!(out, "serfrom {}", hex(j.as_bytes())).unwrap();
     }
+    // long strings with a multi-byte character at every offset (error paths that quote or cut the input)
+    for base in ["en-Latn-US-valencia-fonipa-1994-macos-posix-abcdefgh-12345678", "xxxxxxxxxxxxxxxxxxxxxxxxxxxxxxxxxxxxxxxxxxxxxxxxxxxxxxxxxxxxxxxx"] {
+        for off in 0..base.len() {
+            for ch in ["\u{e9}", "\u{20ac}", "\u{1f600}"] {
+                let mut t = String::from(&base[..off]);
+                t.push_str(ch);
+                t.push_str(&base[off..]);
+                writeln!(out, "serfrom {}", hex(format!("\"{}\"", t).as_bytes())).unwrap();
+                writeln!(out, "serfrom {}", hex(&json_string(&mut r, t.as_bytes()))).unwrap();
+            }
+        }
+    }
     let toks = token_alphabet(false);
     for a in &toks {
         writeln!(out, "serfrom {}", hex(&json_string(&mut r, a))).unwrap();
